@@ -24,7 +24,7 @@ RULE += ('; also: members declared from the persist() hook or saved manually, an
 ASSUMPTIONS = ['custom loaders are constructible without arguments (the saved state records the loader class)', 'exceptions compare by type and args']
 REQUIRED = ['roundtrips', 'kinds/plain', 'kinds/method', 'kinds/savable', 'kinds/future', 'future_states/pending', 'future_states/result',
             'future_states/exception', 'future_states/exception-falsy', 'future_states/cancelled', 'future_states/result-savable', 'manually_saved', 'hook_declared', 'loader/default', 'loader/global', 'loader/persave', 'loader/unknown', 'loader/ctxreuse',
-            'mutation_probes', 'inherited_checks', 'rebound_name_probes', 'second_saves_same_context']
+            'mutation_probes', 'inherited_checks', 'rebound_name_probes', 'second_saves_same_context', 'refusing_loader_probes']
 BOUNDS = {'quick': '150 shapes x 4 loader modes', 'thorough': '3000 shapes x 4 loader modes'}
 
 PLAIN_VALUES = [1, 's', None, [1, [2, 3]], {'k': [1, 2], 'd': {'e': 5}}, (1, 2), [], {}, ('run', [10, 20], {'depth': 1}), {'t': ([1], 2)}]
@@ -390,6 +390,17 @@ def run_case(case):
             except BaseException as exc:  # noqa: BLE001
                 viol.append(V('unknown-class-error', 'unknown-class-error:shadow:%s' % type(exc).__name__, 'a class not importable under its name raised %r '
                               'instead of ValueError' % (exc,)))
+            # a loader named in the load context that refuses the identifier (it did not make it) is not bypassed: the load fails,
+            # the class is not fetched through the default loader behind its back
+            obs['refusing_loader_probes'] = 1
+            try:
+                res = Savable.load(copy.deepcopy(state), persistence.LoadSaveContext(loader=CountingLoader()))
+                viol.append(V('refusing-loader-bypassed', 'refusing-loader-bypassed', 'a state written with default identifiers was loaded (%r) although the loader '
+                              'given in the load context refuses such identifiers' % (res,)))
+            except ValueError:
+                pass
+            except BaseException as exc:  # noqa: BLE001
+                viol.append(V('unknown-class-error', 'unknown-class-error:refusing:%s' % type(exc).__name__, 'a refusing loader made the load raise %r instead of ValueError' % (exc,)))
             # ... and so is a class whose name was bound to another class since it was last saved (module reloaded, definition run
             # again): the objects of the old class are not saved under a name that now means something else
             mod = sys.modules[cls.__module__]
